@@ -190,12 +190,23 @@ theorem fits_singular_packed (f : FieldD) (wt : Nat) (hrep : f.repeated = false)
     subst hfit
     simpa using ht
 
-theorem postVarint_notList (t : PType) (n : Nat) : isListVal (postVarint t n) = false := by
+/-- a scalar Python value: int / bool / float (bit pattern) / str / bytes -/
+def isScalarVal : Val → Bool
+  | .int _ | .bool _ | .f32 _ | .f64 _ | .str _ | .byt _ => true
+  | _ => false
+
+theorem scalarVal_notList (v : Val) (h : isScalarVal v = true) : isListVal v = false := by
+  cases v <;> first | rfl | simp [isScalarVal] at h
+
+theorem scalarVal_stored (S : Schema) (v : Val) (h : isScalarVal v = true) : storedVal S v = v := by
+  cases v <;> first | rfl | simp [isScalarVal] at h
+
+theorem postVarint_scalar (t : PType) (n : Nat) : isScalarVal (postVarint t n) = true := by
   unfold postVarint
   repeat' split
   all_goals rfl
 
-theorem postFixed_notList (t : PType) (p : Bytes) (v : Val) (h : postFixed t p = .ok v) : isListVal v = false := by
+theorem postFixed_scalar (t : PType) (p : Bytes) (v : Val) (h : postFixed t p = .ok v) : isScalarVal v = true := by
   unfold postFixed at h
   split at h
   · simp at h
@@ -204,17 +215,17 @@ theorem postFixed_notList (t : PType) (p : Bytes) (v : Val) (h : postFixed t p =
     · repeat' split at h
       all_goals (injection h with h; subst h; rfl)
 
-theorem decodeValue_notList (S : Schema) (rec : Loader) (f : FieldD) (pf : PField) (v : Val)
+theorem decodeValue_scalar (S : Schema) (rec : Loader) (f : FieldD) (pf : PField) (v : Val)
     (hrep : f.repeated = false) (hfit : wireFits f pf.wt = true) (hm : f.ty ≠ .map) (hmsg : f.ty ≠ .message)
-    (h : decodeValue S rec f pf = .ok v) : isListVal v = false := by
+    (h : decodeValue S rec f pf = .ok v) : isScalarVal v = true := by
   unfold decodeValue at h
   by_cases hp : isPacked f.ty = true
   · have := fits_singular_packed f pf.wt hrep hfit hp
     simp only [this, Bool.false_and, Bool.false_eq_true, if_false] at h
     split at h
-    · injection h with h; subst h; exact postVarint_notList _ _
+    · injection h with h; subst h; exact postVarint_scalar _ _
     · split at h
-      · exact postFixed_notList _ _ _ h
+      · exact postFixed_scalar _ _ _ h
       · have hm' : (f.ty == PType.map) = false := by simpa using hm
         simp only [hm', Bool.false_eq_true, if_false] at h
         unfold postLen at h
@@ -228,9 +239,9 @@ theorem decodeValue_notList (S : Schema) (rec : Loader) (f : FieldD) (pf : PFiel
   · have hp' : isPacked f.ty = false := by simpa using hp
     simp only [hp', Bool.and_false, Bool.false_eq_true, if_false] at h
     split at h
-    · injection h with h; subst h; exact postVarint_notList _ _
+    · injection h with h; subst h; exact postVarint_scalar _ _
     · split at h
-      · exact postFixed_notList _ _ _ h
+      · exact postFixed_scalar _ _ _ h
       · have hm' : (f.ty == PType.map) = false := by simpa using hm
         simp only [hm', Bool.false_eq_true, if_false] at h
         unfold postLen at h
@@ -241,5 +252,11 @@ theorem decodeValue_notList (S : Schema) (rec : Loader) (f : FieldD) (pf : PFiel
           · injection h with h; subst h; rfl
           · simp at h
         · injection h with h; subst h; rfl
+
+
+theorem decodeValue_notList (S : Schema) (rec : Loader) (f : FieldD) (pf : PField) (v : Val)
+    (hrep : f.repeated = false) (hfit : wireFits f pf.wt = true) (hm : f.ty ≠ .map) (hmsg : f.ty ≠ .message)
+    (h : decodeValue S rec f pf = .ok v) : isListVal v = false :=
+  scalarVal_notList v (decodeValue_scalar S rec f pf v hrep hfit hm hmsg h)
 
 end Bp
